@@ -131,7 +131,10 @@ def run(ctx):
                         "multikey"),
                        ("end_multikey", "finish the multikey"),
                        ("characters_default", "<default> text -> adddefault "
-                        "with its key")):
+                        "with its key"),
+                       ("characters", "text collected for cdata elements"),
+                       ("endElement", "collected text (also the empty one of "
+                        "<default/>) handed to characters_<name>")):
         crosscheck(ctx, "C02.R7", BPq + "." + name, "ref_schema.py", name,
                    BPq, what)
     for q, ref, what in (
